@@ -773,6 +773,15 @@ class Emitter:
                         v = v.replace("{" + str(i) + "}", self.atom(t))
                     margs.append((args[int(ai)], v))
                 return pre, "PURE:" + term, ["MUTSELF", recv, rest, margs]
+            if ext.get("mut_args"):
+                # an extern that writes through `&mut` ARGUMENTS only (e.g. `slice.choose(&mut rng)`)
+                margs = []
+                for ai, atmpl in sorted(ext["mut_args"].items()):
+                    v = atmpl.replace("{self}", self.atom(ts_self)) if use_recv else atmpl
+                    for i, t in enumerate(ts):
+                        v = v.replace("{" + str(i) + "}", self.atom(t))
+                    margs.append((args[int(ai)], v))
+                return pre, "PURE:" + term, ["MUTARGS", margs]
             if not ext.get("monadic", ext.get("result", False)):
                 return pre, "PURE:" + term, []
             return pre, term, []
@@ -829,6 +838,18 @@ class Emitter:
 
     def finish_call(self, pre, term, wb, e, mode):
         """bind a call; handle write-backs. mode 'value': returns (pre, pure term of the result)"""
+        if wb and wb[0] == "MUTARGS":
+            pre = list(pre)
+            resv = self.fresh("r")
+            pre.append(f"let {resv} := {term[5:]}")
+            stores = []
+            for place, v in wb[1]:
+                tv = self.fresh("a")
+                pre.append(f"let {tv} := {v}")
+                stores.append((place, tv))
+            for place, tv in stores:
+                pre += self.assign_place(place, tv, e["line"])
+            return pre, resv
         if wb and wb[0] == "MUTSELF":
             pre = list(pre)
             resv = "()"
